@@ -139,9 +139,7 @@ TRUSTED = [
 ]
 ASSUMPTIONS = [
     "objective values are finite numbers (NaN/inf belong to C06)",
-    "constant-liar lies with several objectives AND a failed evaluation raise ValueError in Optimizer.ask (inhomogeneous list), and "
-    "CBO.fit_surrogate with filter_failures='ignore' tells the failures and the surrogate fit raises on 'F' - both C06-type defects reported to "
-    "the coordinator; these combinations are outside the C05 streams",
+    "a first tell that contains only failed evaluations is C06's subject (the C05 streams start with an observation)",
     "moo_upper_bounds (penalty) is not modelled",
     "Model.v describes the REPAIRED scalarize() (fixes/F07_scalarize_relative_to_utopia.patch); today's behaviour is scal_hist_today / C05_cheb_refuted",
 ]
@@ -883,7 +881,7 @@ def check_cbo_tell(case):
         return fail(res, "oracle", "failure_told_as_number", dict(told=repr(Y)[:300]))
     # correspondence with cbo_tell (the order of the told list is not part of the relation)
     jobs = [[i, ([] if y is None else [Fl(y)])] for i, y in enumerate(ys)]
-    mod = m.call(F_TELL, qpack(path == "tell" and ff == "ignore", jobs))   # fit_surrogate tells the failures under every policy
+    mod = m.call(F_TELL, qpack(ff == "ignore", jobs))   # both CBO.tell and CBO.fit_surrogate drop the failures under "ignore"
     mod_c = sorted((c, None if not t else tuple(unqs(t[0]))) for c, t in mod)
     if sorted(got) != mod_c:
         return fail(res, "corr", "told_values", dict(impl=repr(sorted(got))[:600], model=repr(mod_c)[:600]))
@@ -901,10 +899,6 @@ def gen_cbo_tell(count):
                 for j in rng.sample(range(n), rng.randint(1, n - 1)):
                     rows[j] = None
             path, ff = ["tell", "fit_surrogate"][(i // 2) % 2], ["min", "mean", "ignore"][(i // 4) % 3]
-            if path == "fit_surrogate" and ff == "ignore":
-                # fit_surrogate tells the failures even under "ignore" and the surrogate fit then raises on "F" (a C06-type defect,
-                # reported to the coordinator): outside this stream
-                rows = [r if r is not None else gen_rows(rng, 1, n_obj, "mixed")[0] for r in rows]
             if path == "fit_surrogate" and all(r is not None for r in rows) and rng.random() < 0.5:
                 path = "fit_surrogate_df"   # a DataFrame instead of a csv path
             yield dict(path=path, ys=rows, n_obj=n_obj, ff=ff, fail_label=rng.choice(["F", "F_timeout", "F_fail"]),
@@ -1190,7 +1184,10 @@ def check_e2e(case):
                     s.fit_surrogate(csv)
             if bi < len(segs) - 1 and bi < len(inter) and inter[bi]:
                 s.ask(inter[bi])   # proposals (and, for n > 1, constant-liar lies) between two tells: must leave no trace in the history
-        asked = s.ask(batch if strategy not in CL else 1)
+        # constant-liar names: the FIRST element of a batch is the exploitation-only proposal (the others follow the lies)
+        asked = s.ask(batch)
+        if strategy in CL:
+            asked = asked[:1]
         again = s.ask(1) if case.get("twice") and strategy in CL else None
     def to_idx(nxt):
         key = {k: (v if isinstance(v, str) else int(v)) for k, v in nxt.items()}
@@ -1329,9 +1326,11 @@ def gen_e2e(count):
             elif i % 5 == 3:
                 case.update(strategy="boltzmann", batch=rng.choice([1, 2, 3]))
             elif i % 10 == 4:
-                case.update(strategy="qUCB" if case["acq"] == "UCB" else "qUCBd", batch=rng.choice([1, 2, 3, N]))
+                # the q-batch draws its own kappas ~ Exp(kappa) for the 2nd, 3rd.. element: only kappa = 0 makes the batch deterministic
+                case.update(strategy="qUCB" if case["acq"] == "UCB" else "qUCBd", batch=rng.choice([1, 2, 3, N]), kappa=0.0, stds=None)
+                kappa_case = False
             else:
-                case.update(strategy=rng.choice(CL), twice=rng.random() < 0.3,
+                case.update(strategy=rng.choice(CL), twice=rng.random() < 0.3, batch=rng.choice([1, 1, 2, 3]),
                             interleave=[rng.choice([0, 1, 2, 3]) for _ in case["cuts"]])   # asks (with lies) between the tells
             # ---- numeric edge patterns (single objective): 1-ulp differences, huge magnitudes, best exactly 0, all equal
             r = rng.random()
@@ -1348,7 +1347,8 @@ def gen_e2e(count):
                         vals.append(v)
                         v = float(np.nextafter(v, np.inf))
                     rng.shuffle(vals)
-                    case.update(objs=[[x] for x in vals], pattern="ulp", **exact_pipeline)
+                    # (and results told directly: a csv checkpoint is re-read by pandas' fast float parser, which is not exact to the ulp)
+                    case.update(objs=[[x] for x in vals], pattern="ulp", path="tell", **exact_pipeline)
                 elif r < 0.12:
                     base = rng.choice([2.0 ** 52, -2.0 ** 60, 2.0 ** 62])
                     case.update(objs=[[base + rng.randint(-8, 8) * 2.0 ** 12] for _ in range(N)], pattern="huge", **exact_pipeline)
@@ -1369,7 +1369,10 @@ def gen_e2e(count):
                 case.update(objs=rows, pattern="best-is-zero")
             # ---- failed evaluations among the told results (single objective; several objectives: stream fit_targets)
             if n_obj == 1 and not kappa_case and N >= 4 and rng.random() < 0.25:
-                case.update(fails=sorted(rng.sample(range(1, N), rng.randint(1, N // 3))), ff=rng.choice(["min", "mean"]))
+                # "mean" gives a failed configuration the mean score: it can never be THE proposal but may enter a top-n batch,
+                # so batches are checked with "min" (a failure is the worst) only
+                batchy = case["strategy"] in ("topk", "qUCB", "qUCBd")
+                case.update(fails=sorted(rng.sample(range(1, N), rng.randint(1, N // 3))), ff="min" if batchy else rng.choice(["min", "mean"]))
             # ---- a scalariser OBJECT with its own parameter instead of a name
             if n_obj > 1 and case["w"] is not None and rng.random() < 0.2:
                 case["par"] = {"AugChebyshev": rng.choice([0.25, 2.0 ** -10]), "PBI": rng.choice([4.0, 0.5]),
